@@ -1,7 +1,7 @@
 (* C10 — The request server is a faithful adapter in both directions. Theorems only. *)
 From Coq Require Import List NArith Bool Strings.Byte.
 From Sftp Require Import Base.GoSem Wire.Prim Wire.Packets Path.Clean Err.Status Srv.ReqServer
-                         Proofs.CleanP Proofs.StatusP Proofs.ReqServerP Srv.Reply Proofs.ReplyP.
+                         Proofs.CleanP Proofs.StatusP Proofs.ReqServerP Srv.Reply Proofs.ReplyP Wire.ClientParse Srv.Listing Proofs.ListingP.
 Import ListNotations.
 Open Scope N_scope.
 
@@ -84,6 +84,19 @@ Theorem C10_stat_as_given : forall n e, (0 < n)%nat -> (e = Reply.HNil \/ e = Re
   Reply.stat_reply n e = Reply.RAttrs /\ Reply.readlink_reply n e = Reply.RName1.
 Proof. exact ReplyP.stat_as_given. Qed.
 Print Assumptions C10_stat_as_given.
+
+(* listings as given over a whole directory handle: a paginated handler lister (at most P entries per call however large the
+   buffer, the end reported with the last page or after it) is within the ListerAt contract for every page size, so the entries
+   the handler holds reach the client exactly, in order, in at most |dir| + 1 READDIR requests (request.go advances the handle's
+   offset by what was delivered). Tied by kind listpages: count and number of ListAt calls against the extracted client_list. *)
+Theorem C10_paged_lister_is_legal : forall L B P style, (1 <= B)%nat -> (1 <= P)%nat -> legal L B (paged L P style).
+Proof. exact paged_legal. Qed.
+Print Assumptions C10_paged_lister_is_legal.
+
+Theorem C10_paged_listing_exact : forall dir B P style, (1 <= B)%nat -> (1 <= P)%nat ->
+  exists r, client_list (length dir + 2) dir (paged (length dir) P style) B 0 [] 0 = (filter not_dot dir, r, true) /\ (r <= length dir + 1)%nat.
+Proof. exact paged_listing_exact. Qed.
+Print Assumptions C10_paged_listing_exact.
 
 Example C10_nonvacuous :
   clean_with_base [x2f; x68]%byte [x2e; x2e; x2f; x2e; x2e; x2f; x65; x74; x63]%byte = [x2f; x65; x74; x63]%byte /\
